@@ -166,30 +166,38 @@ def insertAdj (s : Sheet) (rootCol offCol rootRow offRow : Nat) : Sheet :=
   let (m, ri, ci) := rebuild cells
   { cells := m, rowIdx := ri, colIdx := ci, rows := rows, cols := cols }
 
+/-- `Columns::adjustment_remove_value` (called only when `offCol ≠ 0`) -/
+def colsRemove (cols : List ColM) (rootCol offCol : Nat) : Res (List ColM) :=
+  if offCol ≠ 0 then
+    match mapRes (fun c => (isRemV c.num rootCol offCol).bind fun b => .ok (c, b)) cols with
+    | .panic => .panic
+    | .ok flagged =>
+      mapRes (fun c => (adjRemV c.num rootCol offCol).bind fun n => .ok { c with num := n })
+        ((flagged.filter (fun p => !p.2)).map (·.1))
+  else .ok cols
+
+/-- `Rows::adjustment_remove_value` (called only when `offRow ≠ 0`) -/
+def rowsRemove (rows : List (Nat × RowM)) (rootRow offRow : Nat) : Res (List (Nat × RowM)) :=
+  if offRow ≠ 0 then
+    match mapRes (fun p => (isRemV p.2.num rootRow offRow).bind fun b => .ok (p, b)) rows with
+    | .panic => .panic
+    | .ok flagged =>
+      mapRes (fun p => (adjRemV p.2.num rootRow offRow).bind fun n => .ok (n, { p.2 with num := n }))
+        ((flagged.filter (fun p => !p.2)).map (·.1))
+  else .ok rows
+
+/-- `Cells::adjustment_remove_coordinate` before the rebuild: drop the cells in the band, shift the rest -/
+def cellsRemove (cells : List (Key × CellM)) (rootCol offCol rootRow offRow : Nat) : Res (List (Key × CellM)) :=
+  mapRes (fun p => (adjRem p.2.col rootCol offCol).bind fun c =>
+            (adjRem p.2.row rootRow offRow).bind fun r => .ok (p.1, { p.2 with col := c, row := r }))
+    (cells.filter (fun p => !(isRem p.2.col rootCol offCol || isRem p.2.row rootRow offRow)))
+
 /-- `Worksheet::adjustment_remove_coordinate` restricted to cells / rows / columns -/
 def removeAdj (s : Sheet) (rootCol offCol rootRow offRow : Nat) : Res Sheet :=
-  let colsR : Res (List ColM) :=
-    if offCol ≠ 0 then
-      match mapRes (fun c => (isRemV c.num rootCol offCol).bind fun b => .ok (c, b)) s.cols with
-      | .panic => .panic
-      | .ok flagged =>
-        mapRes (fun c => (adjRemV c.num rootCol offCol).bind fun n => .ok { c with num := n })
-          ((flagged.filter (fun p => !p.2)).map (·.1))
-    else .ok s.cols
-  let rowsR : Res (List (Nat × RowM)) :=
-    if offRow ≠ 0 then
-      match mapRes (fun p => (isRemV p.2.num rootRow offRow).bind fun b => .ok (p, b)) s.rows with
-      | .panic => .panic
-      | .ok flagged =>
-        mapRes (fun p => (adjRemV p.2.num rootRow offRow).bind fun n => .ok (n, { p.2 with num := n }))
-          ((flagged.filter (fun p => !p.2)).map (·.1))
-    else .ok s.rows
-  match colsR, rowsR with
+  match colsRemove s.cols rootCol offCol, rowsRemove s.rows rootRow offRow with
   | .ok cols, .ok rows =>
     if offCol = 0 ∧ offRow = 0 then .ok { s with cols := cols, rows := rows } else
-    let kept := s.cells.filter (fun p => !(isRem p.2.col rootCol offCol || isRem p.2.row rootRow offRow))
-    match mapRes (fun p => (adjRem p.2.col rootCol offCol).bind fun c =>
-                    (adjRem p.2.row rootRow offRow).bind fun r => .ok (p.1, { p.2 with col := c, row := r })) kept with
+    match cellsRemove s.cells rootCol offCol rootRow offRow with
     | .panic => .panic
     | .ok cells =>
       let (m, ri, ci) := rebuild cells
